@@ -3,7 +3,7 @@ CONFIG = {
     "coq_dirs": ["theories/File"],
     "coq_targets": ["theories/File/Properties.vo", "theories/File/Corr.vo"],
     "properties_files": ["theories/File/Properties.v"],
-    "required_theorems": [],
+    "required_theorems": ["trace_ok_all", "refcount_exact", "closed_exactly_once_at_zero", "no_use_after_release", "frozen_implies_referenced", "frozen_content_stable", "upload_digest_matches", "cache_invalidated", "wake_enabled"],
     "harnesses": [
         {"cmd": "file", "cases_quick": 400, "cases_thorough": 12000, "shards_quick": 8, "shards_thorough": 32, "race": True},
     ],
